@@ -52,7 +52,7 @@ LEVEL_TEXT = ("Exhaustive over the enumerated product in the thorough tier. Quic
               "implemented route x method under 6 key credential forms, and a rotating diagonal (every route x method x "
               "credential present with one xsrf/sfs pair) for the rest; random raw requests beyond the table.")
 LEVEL_NOTE = "tornado HTTP parsing/cookie signing, loopback transport, harness state digest"
-QUICK_N = 6_000  # fuzz part; the enumerated part is sized by the product
+QUICK_N = 4_000  # fuzz part; the enumerated part is sized by the product
 THOROUGH_N = 300_000
 HIST_QUICK_N, HIST_THOROUGH_N = 1_600, 120_000   # configuration/request histories (about 7 requests each)
 BUDGET_S = (300, 7200)
